@@ -4,6 +4,7 @@ package lib
 
 import (
 	"fmt"
+	"strings"
 	"testing"
 
 	"pgregory.net/rapid"
@@ -38,6 +39,14 @@ func c01Case(t *rapid.T) {
 		bodies = []string{qtext}
 	}
 	lines := gen.Lines(t, bodies, 0, 40, 16)
+	// now and then a line is very long (beyond what the optimal algorithm evaluates itself:
+	// line length x term length > 100 K): what matches must not depend on that
+	padded := false
+	if len(lines) > 0 && rapid.IntRange(0, 11).Draw(t, "veryLongLine") == 0 {
+		k := rapid.IntRange(0, len(lines)-1).Draw(t, "which")
+		lines[k] += strings.Repeat("Ω", rapid.SampledFrom([]int{21000, 52000, 110000}).Draw(t, "padding"))
+		padded = true
+	}
 	extra := rapid.SampledFrom(extraOpts).Draw(t, "extra")
 	a := append([]string{"-f", qtext}, args...)
 	if extra != "" {
@@ -91,12 +100,26 @@ func c01Case(t *rapid.T) {
 	labels = append(labels, fmt.Sprintf("case=%d", o.Case), "algo="+o.Algo, "extra="+extra)
 	nt := (nterms >= 2 || special) && len(want) > 0 && len(want) < len(lines)
 	key := fmt.Sprintf("%q|%v|%q", qtext, a, lines)
+	if padded {
+		labels = append(labels, "very_long_line")
+		key = fmt.Sprintf("%q|%v|%d", qtext, a, len(key))
+	}
 	vstat.Case("C01/lib", key, nt, labels...)
-	if nt && vstat.WantSample("C01/lib") {
+	if nt && !padded && vstat.WantSample("C01/lib") {
 		vstat.Sample("C01/lib", map[string]interface{}{"args": a, "lines": lines, "matched": want})
 	}
 	if d := multisetDiff(got, want); d != "" {
-		t.Fatalf("query %q args %q\nlines %q\nprinted %q\nexpected %q\n%s", qtext, a, lines, got, want, d)
+		short := func(ls []string) []string {
+			out := make([]string, len(ls))
+			for i, l := range ls {
+				if rs := []rune(l); len(rs) > 200 {
+					l = fmt.Sprintf("%s...(%d characters)", string(rs[:60]), len(rs))
+				}
+				out[i] = l
+			}
+			return out
+		}
+		t.Fatalf("query %q args %q\nlines %q\nprinted %q\nexpected %q\n%s", qtext, a, short(lines), short(got), short(want), clipTo(d, 600))
 	}
 	wantCode := 0
 	if len(want) == 0 {
@@ -137,9 +160,9 @@ func TestVerifC01_Regress(t *testing.T) {
 		want  []string
 	}
 	for _, k := range []rc{
-		{[]string{"-f", "'foo'", "--tiebreak=end"}, []string{"xxx foo bar", "xfoo"}, []string{"xxx foo bar"}},  // F9
-		{[]string{"-f", "'foo'", "--scheme=path"}, []string{"xxx foo bar", "xfoo"}, []string{"xxx foo bar"}},   // F9
-		{[]string{"-f", "ǆ", "-i"}, []string{"xǅy", "abc"}, []string{"xǅy"}},                                     // F5
+		{[]string{"-f", "'foo'", "--tiebreak=end"}, []string{"xxx foo bar", "xfoo"}, []string{"xxx foo bar"}}, // F9
+		{[]string{"-f", "'foo'", "--scheme=path"}, []string{"xxx foo bar", "xfoo"}, []string{"xxx foo bar"}},  // F9
+		{[]string{"-f", "ǆ", "-i"}, []string{"xǅy", "abc"}, []string{"xǅy"}},                                  // F5
 		{[]string{"-f", "!a | b c"}, []string{"ac", "bc", "xc", "ab"}, []string{"bc", "xc"}},
 	} {
 		got, _ := runFilter(t, k.args, k.lines)
@@ -148,4 +171,11 @@ func TestVerifC01_Regress(t *testing.T) {
 			t.Errorf("args %q lines %q: printed %q, expected %q (%s)", k.args, k.lines, got, k.want, d)
 		}
 	}
+}
+
+func clipTo(s string, n int) string {
+	if rs := []rune(s); len(rs) > n {
+		return string(rs[:n]) + "..."
+	}
+	return s
 }
